@@ -278,15 +278,19 @@ impl SodiumCtx {
                 k();
             }
         }
-        // post
-        {
-            let post = self.with_data(|data: &mut SodiumCtxData| {
-                let mut post: Vec<Box<dyn FnMut() + Send>> = Vec::new();
-                mem::swap(&mut post, &mut data.post);
-                post
+        // post: one at a time from the front of the shared queue, so that work queued by the
+        // transactions these closures run lines up behind the work that was queued before it
+        loop {
+            let k_op = self.with_data(|data: &mut SodiumCtxData| {
+                if data.post.is_empty() {
+                    None
+                } else {
+                    Some(data.post.remove(0))
+                }
             });
-            for mut k in post {
-                k();
+            match k_op {
+                Some(mut k) => k(),
+                None => break,
             }
         }
         let allow_collect_cycles = self.with_data(|data: &mut SodiumCtxData| {
